@@ -283,8 +283,55 @@ def specDigits (spec : String) : Option Nat :=
   match spec.toList with
   | '.' :: rest =>
     match rest.reverse with
-    | 'G' :: ds => (String.ofList ds.reverse).toNat?
+    | 'G' :: ds =>
+      if ds.isEmpty || !ds.all (fun c => '0' ≤ c && c ≤ '9') then none
+      else some (ds.reverse.foldl (fun a c => a * 10 + (c.toNat - 48)) 0)
     | _ => none
   | _ => none
+
+/-! ## specification side of the reals: shape of '%.<n>G' text and the RealCodec hypothesis record -/
+
+def isDig (c : Char) : Bool := '0' ≤ c && c ≤ '9'
+
+/-- the text CPython's '%.<n>G' produces for a finite value: [-] digits [. digits] [E (+|-) digits] -/
+structure GText where
+  neg : Bool
+  ip : List Char                       -- integer part
+  frac : List Char                     -- digits after the '.', [] = no '.'
+  exp : Option (Bool × List Char)      -- exponent: (negative?, digits)
+  deriving Repr
+
+def GText.ok (g : GText) : Bool :=
+  !g.ip.isEmpty && g.ip.all isDig && g.frac.all isDig &&
+  (match g.exp with | none => true | some (_, ds) => !ds.isEmpty && ds.all isDig)
+
+def GText.expText (g : GText) : List Char :=
+  match g.exp with
+  | none => []
+  | some (s, ds) => 'E' :: (if s then '-' else '+') :: ds
+
+def GText.render (g : GText) : List Char :=
+  (if g.neg then ['-'] else []) ++ g.ip ++ (if g.frac.isEmpty then [] else '.' :: g.frac) ++ g.expText
+
+/-- DSP0201 realValue = [ "+" | "-" ] *decimalDigit "." 1*decimalDigit [ ( "e" | "E" ) [ "+" | "-" ] 1*decimalDigit ]:
+    a GText with a non-empty fraction renders to exactly this grammar -/
+def GText.isRealValue (g : GText) : Bool := g.ok && !g.frac.isEmpty
+
+/-- what atomic_to_cim_xml is meant to do to a G text: add ".0" when there is no fraction -/
+def GText.withFraction (g : GText) : GText := if g.frac.isEmpty then { g with frac := ['0'] } else g
+
+/-- Third-party behaviour the real round trip rests on, as a HYPOTHESIS RECORD (never an axiom):
+    CPython's format(x, '.17G') / format(x, '.11G') and float(text), over doubles given by bit pattern. -/
+structure RealCodec where
+  fmt : Nat → List Char
+  parse : List Char → Option Nat
+  finite : Nat → Bool
+  /-- the text of a finite value has the G shape -/
+  shape : ∀ x, finite x = true → ∃ g : GText, g.ok = true ∧ fmt x = g.render
+  /-- enough digits are printed: float() of the text gives the value back (17 digits for binary64; for '.11G' the
+      codec is over binary32 values) -/
+  rt : ∀ x, finite x = true → parse (fmt x) = some x
+  /-- float() reads "<int>.0[E…]" like "<int>[E…]" -/
+  dot0 : ∀ g : GText, g.ok = true → g.frac = [] → parse ({ g with frac := ['0'] } : GText).render = parse g.render
 
 end Pywbem.Model.CimTypes
